@@ -230,14 +230,22 @@ def rtext(rnd):
                    for _ in range(rnd.randint(0, 12)))
 
 
+# ids the caller chose: things that LOOK like something a loader might want to tidy (UUID spellings, numbers, null, blanks)
+HOSTILE_IDS = ["5D41402A-BC4B-2A76-B971-9D911017C592", "5d41402abc4b2a76b9719d911017c592", "{5d41402a-bc4b-2a76-b971-9d911017c592}",
+               "urn:uuid:5d41402a-bc4b-2a76-b971-9d911017c592", "", " ", "None", "null", "0", "007", "1e3", "id with spaces", " padded ", "\u00e9\u6f22", "a" * 300,
+               "true", "-1", "{}", "[]", "a/b", "x:y"]
+
+
 def random_tree(rnd, size):
-    root = Node(rtext(rnd) or "r")
+    root = Node(rtext(rnd) or "r", id=rnd.choice(HOSTILE_IDS)) if rnd.random() < 0.3 else Node(rtext(rnd) or "r")
     nodes = [root]
     prefixes = [rtext(rnd) or "p" for _ in range(4)]
     for _ in range(size - 1):
         p = rnd.choice(nodes)
         # now and then a node that carries the id of another node of the tree (nothing forbids it; save/load must keep both)
         c = Node(rtext(rnd) or "n", id=rnd.choice(nodes).id) if rnd.random() < 0.04 else Node(rtext(rnd) or "n")
+        if rnd.random() < 0.15:
+            c = Node(c.name, id=rnd.choice(HOSTILE_IDS))
         if rnd.random() < 0.3:
             c.add_namespace(rnd.choice(prefixes), rtext(rnd))
         p.add_child(c, index=rnd.randint(0, len(p.children)))      # attach establishes the prefix-inclusion invariant
